@@ -9,8 +9,8 @@
    * lambda over the whole run: lambda_t = (1 - 1/T)^t step by step, stays in (0, 1], strictly decreases,
      1 - t/T <= lambda_t <= T/(T + t); at the end of the schedule lambda_T <= 1/2;
    * the run as a function of max_iteration refines spe_embedding_run (so the centroid theorems carry over). *)
-Require Import List Arith Lia Bool ZArith QArith Lqa.
-From TK Require Import Mat_Sums Mat_Core Spe_Model Spe_Spec Spe_Proof_Lists Spe_Proof_Index Spe_Proof_Coord
+Require Import List Arith Lia Bool ZArith QArith Qcanon Lqa.
+From TK Require Import Mat_Sums Mat_Core Mat_Qc Spe_Model Spe_Spec Spe_Proof_Lists Spe_Proof_Index Spe_Proof_Coord
      Spe_Run_Model Spe_Proof_Run Spe_Des_Model Spe_Proof_Des Spe_Proof_Closed Spe_Sched_Model.
 Import ListNotations.
 Local Open Scope nat_scope.
@@ -370,3 +370,60 @@ Section FullProof.
     apply spe_run_centroid_local_proof; assumption.
   Qed.
 End FullProof.
+
+(* ---------------- the lambda of the model's run IS lam_seq ---------------- *)
+Section LamLink.
+  Context {F : Type} {Fo : FieldOps F} {Ff : IsField F}.
+
+  (* spe_coords is the loop with the explicit list of lambdas run_lambdas T (#iterations) lambda_0 *)
+  Theorem spe_coords_uses_run_lambdas_proof (T : nat) (tol alpha : F) R : forall steps lam (Y : pts),
+    spe_coords T tol alpha R steps lam Y =
+    spe_coords_lams tol alpha R steps (run_lambdas T (length steps) lam) Y.
+  Proof.
+    induction steps as [|s rest IH]; intros lam Y; [reflexivity|].
+    cbn [spe_coords length run_lambdas spe_coords_lams]. apply IH.
+  Qed.
+
+  Lemma iter_shift {A} (f : A -> A) : forall t x, Nat.iter t f (f x) = f (Nat.iter t f x).
+  Proof.
+    induction t as [|t IH]; intros x; [reflexivity|].
+    change (Nat.iter (S t) f (f x)) with (f (Nat.iter t f (f x))). rewrite IH. reflexivity.
+  Qed.
+
+  Theorem run_lambdas_nth_proof (T : nat) : forall n t (lam : F), t < n ->
+    nth t (run_lambdas T n lam) fzero = Nat.iter t (lambda_next T) lam.
+  Proof.
+    induction n as [|n IH]; intros t lam Ht; [lia|].
+    destruct t as [|t]; [reflexivity|].
+    cbn [run_lambdas nth]. rewrite IH by lia. rewrite iter_shift. reflexivity.
+  Qed.
+
+  Lemma run_lambdas_length (T : nat) : forall n (lam : F), length (run_lambdas T n lam) = n.
+  Proof. induction n as [|n IH]; intros lam; [reflexivity|]. cbn [run_lambdas length]. rewrite IH. reflexivity. Qed.
+End LamLink.
+
+(* at Qc (the field the extracted model runs at) the lambda of iteration t, read as a rational, is lam_seq T t *)
+Lemma Qc_lambda_next_this (T : nat) (x : Qc) :
+  (this (@lambda_next Qc QcOps T x) == this x - this x / inject_Z (Z.of_nat T))%Q.
+Proof.
+  unfold lambda_next. rewrite Qc_of_nat.
+  change (@fsub Qc QcOps) with Qcminus. change (@fdiv Qc QcOps) with Qcdiv.
+  unfold Qcminus, Qcdiv, Qcplus, Qcopp, Qcmult, Qcinv, Q2Qc. cbn [this].
+  repeat rewrite Qred_correct. unfold Qdiv, Qminus, inject_Z. reflexivity.
+Qed.
+
+Theorem Qc_run_lambda_is_lam_seq_proof (T t : nat) :
+  (this (Nat.iter t (@lambda_next Qc QcOps T) (@fone Qc QcOps)) == lam_seq T t)%Q.
+Proof.
+  induction t as [|t IH].
+  - unfold lam_seq. cbn [Nat.iter nat_rect]. reflexivity.
+  - rewrite lam_seq_S. cbn [Nat.iter nat_rect]. rewrite Qc_lambda_next_this.
+    change (nat_rect (fun _ => Qc) fone (fun _ => lambda_next T) t) with (Nat.iter t (@lambda_next Qc QcOps T) fone).
+    rewrite IH. reflexivity.
+Qed.
+
+(* `spe_run_lambda_is_lam_seq`: in the run of the extracted model (Qc) with schedule divisor T, iteration t < n uses
+   a lambda whose rational value is lam_seq T t - so every bound proved for lam_seq holds for the lambda of the run *)
+Theorem spe_run_lambda_is_lam_seq_proof (T n t : nat) : t < n ->
+  (this (nth t (@run_lambdas Qc QcOps T n fone) fzero) == lam_seq T t)%Q.
+Proof. intros H. rewrite run_lambdas_nth_proof by exact H. apply Qc_run_lambda_is_lam_seq_proof. Qed.
